@@ -150,13 +150,17 @@ func namesSelf(entry, self string) bool {
 	return len(f) >= 2 && f[1] == self
 }
 
-// valid: the statement's clauses collide when a Connection token nominates a
-// header the stack must maintain; such cases are outside the domain.
+// valid: a Connection token nominating Via or Content-Length is outside the
+// domain, the statement's clauses collide there (existing Via entries must be
+// kept and must not survive; the length must be untouched and must go).
+// Nominating X-Forwarded-* is inside: the received header is hop-by-hop by
+// nomination and must not survive, and the forwarded request still carries
+// this proxy's own X-Forwarded-* for the hop.
 func valid(c Case) bool {
 	id := func(s string) string { return s }
 	for _, lines := range [][]HL{c.Req, c.Res} {
 		for n := range hopSet(collect(lines, id)) {
-			if managedReq[n] || n == "Host" {
+			if n == "Via" || n == "Content-Length" || n == "Host" {
 				return false
 			}
 		}
@@ -194,8 +198,10 @@ func modelRequest(c Case, subst func(string) string, self string) reqModel {
 			}
 		}
 	}
-	m.xffLines = len(m.in["X-Forwarded-For"])
-	m.xffPrev = flatten(m.in["X-Forwarded-For"])
+	if xff, _ := m.received("X-Forwarded-For"); true {
+		m.xffLines = len(xff)
+		m.xffPrev = flatten(xff)
+	}
 	for i, v := range flatten(m.in["Content-Length"]) {
 		if i == 0 {
 			m.clValue = v
@@ -208,6 +214,41 @@ func modelRequest(c Case, subst func(string) string, self string) reqModel {
 		m.teBad = trimOWS(last[len(last)-1]) != "chunked"
 	}
 	return m
+}
+
+// received returns the lines of an X-Forwarded-* header that count as received
+// from the previous hop: none when a Connection token nominates the header.
+func (m reqModel) received(name string) (lines []string, nominated bool) {
+	if m.hop[name] {
+		return nil, true
+	}
+	return m.in[name], false
+}
+
+// checkForwarded: X-Forwarded-For = received members + client IP;
+// -Proto/-Host/-Url = received lines if any, else derived from the request.
+func checkForwarded(m reqModel, out http.Header, where, ip, proto, host, u string, v *kit.Verdict) {
+	xff, nominated := m.received("X-Forwarded-For")
+	if nominated {
+		if got := flatten(out["X-Forwarded-For"]); !equalStrings(got, []string{ip}) {
+			v.Addf("C14/x-forwarded-for/connection-nominated/wrong-members", "X-Forwarded-For%s: nominated by Connection lines %q (received %q), want exactly this hop's entry [%q], got %q", where, m.in["Connection"], m.in["X-Forwarded-For"], ip, out["X-Forwarded-For"])
+		}
+	} else {
+		checkChain("x-forwarded-for", "X-Forwarded-For"+where, xff, out["X-Forwarded-For"], ip, v)
+	}
+	for _, x := range []struct{ name, def string }{{"X-Forwarded-Proto", proto}, {"X-Forwarded-Host", host}, {"X-Forwarded-Url", u}} {
+		want, nominated := m.received(x.name)
+		shape := "preexisting"
+		switch {
+		case nominated:
+			want, shape = []string{x.def}, "connection-nominated"
+		case len(want) == 0:
+			want, shape = []string{x.def}, "absent"
+		}
+		if !equalStrings(want, out[x.name]) {
+			v.Addf("C14/forwarded/"+strings.ToLower(x.name)+"-"+shape+"/wrong-value", "%s%s: input %q (Connection lines %q), want %q, got %q", x.name, where, m.in[x.name], m.in["Connection"], want, out[x.name])
+		}
+	}
 }
 
 func clientIP(remote string) string {
@@ -227,6 +268,9 @@ func checkHeaders(side string, in, out http.Header, hop, managed, tolerated map[
 	sort.Strings(names)
 	for _, n := range names {
 		switch {
+		case hop[n] && managed[n]:
+			// nominated X-Forwarded-*: the received value must go and this hop's own
+			// value must be there - decided by checkForwarded
 		case hop[n]:
 			if tolerated[n] {
 				continue
@@ -382,20 +426,7 @@ func runInproc(c Case) kit.Verdict {
 		} else {
 			checkChain("via", "Via", m.in["Via"], req.Header["Via"], stamp, &v)
 		}
-		checkChain("x-forwarded-for", "X-Forwarded-For", m.in["X-Forwarded-For"], req.Header["X-Forwarded-For"], clientIP(c.Remote), &v)
-		for _, x := range []struct{ name, def string }{
-			{"X-Forwarded-Proto", c.Scheme},
-			{"X-Forwarded-Host", c.Host},
-			{"X-Forwarded-Url", (&url.URL{Scheme: c.Scheme, Host: c.URLHost, Path: c.Path, RawQuery: c.Query}).String()},
-		} {
-			want, shape := m.in[x.name], "preexisting"
-			if len(want) == 0 {
-				want, shape = []string{x.def}, "absent"
-			}
-			if !equalStrings(want, req.Header[x.name]) {
-				v.Addf("C14/forwarded/"+strings.ToLower(x.name)+"-"+shape+"/wrong-value", "%s: input %q, want %q, got %q", x.name, m.in[x.name], want, req.Header[x.name])
-			}
-		}
+		checkForwarded(m, req.Header, "", clientIP(c.Remote), c.Scheme, c.Host, (&url.URL{Scheme: c.Scheme, Host: c.URLHost, Path: c.Path, RawQuery: c.Query}).String(), &v)
 		// Content-Length: untouched, or reduced to the one common value
 		if cl := m.in["Content-Length"]; len(cl) > 0 && !m.clConflict {
 			got := req.Header["Content-Length"]
@@ -441,6 +472,8 @@ func runInproc(c Case) kit.Verdict {
 }
 
 // ---------------------------------------------------------------- generator
+
+var xfNames = []string{"X-Forwarded-For", "X-Forwarded-Proto", "X-Forwarded-Host", "X-Forwarded-Url"}
 
 var (
 	extPool   = []string{"X-Ext-A", "Foo", "X-Custom-Hop", "Bar-Baz"}
@@ -519,7 +552,7 @@ func genHeaders(t *rapid.T, o genOpts) []HL {
 		var toks []string
 		for j, k := 0, rapid.IntRange(0, 4).Draw(t, "conn_tokens"); j < k; j++ {
 			var tok string
-			switch rapid.IntRange(0, 9).Draw(t, "tok_kind") {
+			switch rapid.IntRange(0, 11).Draw(t, "tok_kind") {
 			case 0, 1, 2:
 				tok = rapid.SampledFrom(fixedHop[1:]).Draw(t, "tok_fixed")
 				if o.wire && (tok == "Transfer-Encoding" || tok == "Trailer") {
@@ -534,6 +567,8 @@ func genHeaders(t *rapid.T, o genOpts) []HL {
 					// holds "close": the stack never sees the other tokens of such a response
 					tok = "keep-alive"
 				}
+			case 9, 10:
+				tok = rapid.SampledFrom(xfNames).Draw(t, "tok_xf")
 			default:
 				tok = ""
 			}
@@ -791,6 +826,15 @@ func classes(c Case) []string {
 		}
 	}
 	add(nearMiss && !m.loop, "via-near-miss")
+	nomXF, nomXFPresent := false, false
+	for _, n := range xfNames {
+		if m.hop[n] {
+			nomXF = true
+			nomXFPresent = nomXFPresent || len(m.in[n]) > 0
+		}
+	}
+	add(nomXF, "conn-nominates-x-forwarded")
+	add(nomXFPresent, "conn-nominates-x-forwarded-present")
 	add(len(m.xffPrev) > 0, "xff-preexisting")
 	add(m.xffLines > 1, "xff-multi-line")
 	add(len(m.in["X-Forwarded-Proto"])+len(m.in["X-Forwarded-Host"])+len(m.in["X-Forwarded-Url"]) > 0, "xf-proto-host-url-present")
@@ -814,7 +858,7 @@ func nontrivial(c Case) bool {
 	return (tokens >= 2 && odd >= 2) || len(m.viaPrev) > 0 || multiFwd || m.clConflict || m.teBad
 }
 
-const ruleText = "header lines for a request and a response: the fixed hop-by-hop names present/absent, 0..3 Connection lines of 0..4 tokens in drawn case and spacing (fixed names, extension names present as headers, absent names, empty tokens), 0..6 end-to-end headers, 0..3 Via lines of 0..3 members with this instance or a near miss at a drawn position, pre-existing X-Forwarded-For/-Proto/-Host/-Url (0..2 lines), v4/v6 RemoteAddr, Content-Length lists (equal/conflicting, comma-joined) and Transfer-Encoding values; compared with a reference model of DESIGN A.3; non-trivial = at least 2 Connection tokens in non-canonical case or spacing, or a pre-existing Via, or multi-line forwarded headers, or a framing conflict"
+const ruleText = "header lines for a request and a response: the fixed hop-by-hop names present/absent, 0..3 Connection lines of 0..4 tokens in drawn case and spacing (fixed names, extension names present as headers, X-Forwarded-For/-Proto/-Host/-Url with or without such a header present, absent names, empty tokens), 0..6 end-to-end headers, 0..3 Via lines of 0..3 members with this instance or a near miss at a drawn position, pre-existing X-Forwarded-For/-Proto/-Host/-Url (0..2 lines), v4/v6 RemoteAddr, Content-Length lists (equal/conflicting, comma-joined) and Transfer-Encoding values; compared with a reference model of DESIGN A.3; non-trivial = at least 2 Connection tokens in non-canonical case or spacing, or a pre-existing Via, or multi-line forwarded headers, or a framing conflict"
 
 var propStack = &kit.Prop[Case]{
 	ID: "C14", Name: "stack", Rule: "in-process httpspec.NewStack with martian.TestContext; " + ruleText,
@@ -824,6 +868,7 @@ var propStack = &kit.Prop[Case]{
 		"via-multi-line": 0.2, "via-self": 0.15, "via-self-later-line": 0.03, "via-near-miss": 0.08,
 		"xff-multi-line": 0.1, "framing-cl-conflict": 0.1, "framing-te-bad": 0.1, "res-conn-nominates-present-ext": 0.15,
 		"remote-v6": 0.2, "host-differs-from-url": 0.2,
+		"conn-nominates-x-forwarded": 0.1, "conn-nominates-x-forwarded-present": 0.05,
 	},
 }
 
@@ -838,7 +883,7 @@ func TestStack(t *testing.T) {
 
 var propEnum = &kit.Prop[Case]{
 	ID: "C14", Name: "enumerated",
-	Rule: "ALL of: (a) each fixed or extension name nominated by a Connection token in 4 spellings x 5x5 surrounding whitespace x 4 positions (alone, first of two, second of two, on a second Connection line), on the request and on the response; (b) Via chains of 1..3 lines x 1..2 foreign members with this instance at every position or absent, x 3 protocol versions; (c) X-Forwarded-For of 0..3 lines x 1..2 members; non-trivial = all",
+	Rule: "ALL of: (a) each fixed, extension or X-Forwarded-* name nominated by a Connection token in 4 spellings x 5x5 surrounding whitespace x 4 positions (alone, first of two, second of two, on a second Connection line), on the request and on the response; (b) Via chains of 1..3 lines x 1..2 foreign members with this instance at every position or absent, x 3 protocol versions; (c) X-Forwarded-For of 0..3 lines x 1..2 members; non-trivial = all",
 	Run:  runInproc, NonTrivial: func(Case) bool { return true }, Classes: classes,
 }
 
@@ -870,7 +915,7 @@ func TestEnumerated(t *testing.T) {
 	ws := []string{"", " ", "  ", "\t", " \t "}
 	propEnum.Enumerate(t, func(yield func(Case) bool) {
 		// (a) Connection nominations
-		names := append(append([]string{}, fixedHop[1:]...), "X-Ext-A", "Foo")
+		names := append(append(append([]string{}, fixedHop[1:]...), "X-Ext-A", "Foo"), xfNames...)
 		for _, n := range names {
 			for k := 0; k < 4; k++ {
 				for _, pre := range ws {
